@@ -58,7 +58,7 @@ def main():
     names = sorted(n for n in os.listdir(SEEDED) if os.path.exists(os.path.join(SEEDED, n, "patch.diff")))
     if want:
         names = [n for n in names if n in want or n.split("-")[0] in want]
-    with ThreadPoolExecutor(max_workers=6) as ex:
+    with ThreadPoolExecutor(max_workers=int(os.environ.get("SEEDED_JOBS", "6"))) as ex:
         for name, prop, verdict, info in ex.map(one, names):
             print(f"{name:10s} {prop:4s} {verdict:8s} {info}")
 
